@@ -172,8 +172,7 @@ def gen_case(ctx, stream, idx):
     if stream == "zero_params":
         return irgen.rand_ir(r, nparams=0, with_return=True, type_kinds=CORE_TKINDS)
     if stream == "probe":
-        return irgen.rand_ir(r, nparams=r.randint(1, 4), default_kinds=PROBE_DKINDS + ("absent", "int", "str"),
-                             return_default=r.random() < 0.3)
+        return irgen.rand_ir(r, nparams=r.randint(1, 4), default_kinds=PROBE_DKINDS + ("absent", "int", "str"))
     raise ValueError(stream)
 
 
